@@ -256,20 +256,59 @@ pub fn observe_load(c: &Case, dir: &Path) -> String {
 }
 
 /// `all_entry_points = false`: only `Font::load` (one segment)
-pub fn observe_load_eps(c: &Case, dir: &Path, all_entry_points: bool) -> String {
-    use norad::DataRequest;
-    write_tree(dir, c);
-    let s1 = load_outcome(guarded(|| Font::load(dir)));
-    if !all_entry_points {
-        rm_rf(dir);
-        return s1;
+/// the request shapes of `Font::load_requested_data`; shape 0 is `Font::load`.  The driver knows for every id
+/// whether groups / kerning / layers are requested (`Driver/C15.lean: shapeOf`).
+pub const N_SHAPES: usize = 14;
+
+fn request_shape(id: usize) -> norad::DataRequest<'static> {
+    use norad::DataRequest as R;
+    match id {
+        1 => R::default(),
+        2 => R::none().groups(true).kerning(true),
+        3 => R::default().kerning(false),
+        4 => R::default().groups(false),
+        5 => R::default().groups(false).kerning(false),
+        6 => R::default().lib(false),
+        7 => R::none().groups(true),
+        8 => R::none().kerning(true),
+        9 => R::none().kerning(true).groups(true),
+        10 => R::default().layers(false),
+        11 => R::default().kerning(false).kerning(true),
+        12 => R::all().kerning(false).features(false).data(false).images(false),
+        _ => R::none().layers(true).groups(true),
     }
-    let s2 = load_outcome(guarded(|| Font::load_requested_data(dir, DataRequest::default())));
-    let s3 = load_outcome(guarded(|| {
-        Font::load_requested_data(dir, DataRequest::none().groups(true).kerning(true))
-    }));
+}
+
+static SHAPE_COUNTER: std::sync::atomic::AtomicUsize = std::sync::atomic::AtomicUsize::new(0);
+
+/// segments `@<shape> <outcome>` separated by `||`.  `all_entry_points = false`: only `Font::load`;
+/// otherwise `Font::load` and four request shapes in rotation (every shape when `every_shape`)
+pub fn observe_load_shapes(c: &Case, dir: &Path, all_entry_points: bool, every_shape: bool) -> String {
+    write_tree(dir, c);
+    let mut segs = vec![format!("@0 {}", load_outcome(guarded(|| Font::load(dir))))];
+    if all_entry_points {
+        let ids: Vec<usize> = if every_shape {
+            (1..N_SHAPES).collect()
+        } else {
+            let k = SHAPE_COUNTER.fetch_add(1, std::sync::atomic::Ordering::Relaxed);
+            // shape 3 (kerning not requested) on every second case, the others in rotation
+            let mut v: Vec<usize> = (0..3).map(|j| 1 + (k * 3 + j) % (N_SHAPES - 1)).collect();
+            if k % 2 == 0 && !v.contains(&3) {
+                v.push(3);
+            }
+            v
+        };
+        for id in ids {
+            let r = request_shape(id);
+            segs.push(format!("@{} {}", id, load_outcome(guarded(|| Font::load_requested_data(dir, r)))));
+        }
+    }
     rm_rf(dir);
-    format!("{} || {} || {}", s1, s2, s3)
+    segs.join(" || ")
+}
+
+pub fn observe_load_eps(c: &Case, dir: &Path, all_entry_points: bool) -> String {
+    observe_load_shapes(c, dir, all_entry_points, false)
 }
 
 fn save_outcome(r: Result<Result<(), norad::error::FontWriteError>, String>, g: &Groups, dir: &Path) -> String {
@@ -329,7 +368,7 @@ fn scratch_dir(tag: &str) -> PathBuf {
 
 pub fn observe(toks: &[&str]) -> String {
     match toks[1] {
-        "load" => observe_load(&Case::from_tokens(toks), &scratch_dir("replay")),
+        "load" => observe_load_shapes(&Case::from_tokens(toks), &scratch_dir("replay"), true, true),
         "save" => observe_save(&parse_groups_tok(toks[2]).unwrap(), &scratch_dir("replay")),
         _ => "unknown-subcommand".to_string(),
     }
@@ -347,6 +386,20 @@ pub const GROUP_POOL: &[&str] = &[
     "public.kern2.A", "public.kern2.A1", "public.kern2.B", "public.kern2.@MMK_R_A",
     "public.kern1.", "public.kern2.", "public.kern1", "public.kern3.A",
     "\u{c4}", "@MMK_L_\u{c4}", "A&B",
+];
+
+/// self-similar names: the remainder behind a kerning prefix is again a prefix (the same, the other side's, a
+/// proper prefix / suffix of it), the prefix repeated 2-4 times with and without a tail, legacy markers whose
+/// tail is a new-style prefix.  All of them are valid names; only the bare prefixes are not.
+pub const SELF_SIMILAR: &[&str] = &[
+    "public.kern1.public.kern1.", "public.kern2.public.kern2.", "public.kern1.public.kern2.", "public.kern2.public.kern1.",
+    "public.kern1.public.kern1.public.kern1.", "public.kern2.public.kern2.public.kern2.",
+    "public.kern1.public.kern1.public.kern1.public.kern1.", "public.kern1.public.kern1.x", "public.kern2.public.kern2.public.kern2.y",
+    "public.kern1.public.kern1", "public.kern1.public.kern", "public.kern1.public.", "public.kern1.kern1.", "public.kern1.1.",
+    "public.kern1..", "public.kern2.kern2.", "public.kern2.public.kern2", "public.kern1.p", "public.kern2.2.",
+    "@MMK_L_public.kern1.", "@MMK_R_public.kern2.", "@MMK_R_public.kern2.x", "@MMK_L_public.kern1.public.kern1.",
+    "@MMK_L_public.kern2.", "@MMK_R_public.kern1.", "@MMK_L_@MMK_L_public.kern1.", "@MMK_L_public.kern1.A", "@MMK_R_@MMK_R_public.kern2.",
+    "public.kern1.@MMK_L_", "public.kern2.@MMK_R_",
 ];
 
 /// the small pool of the exhaustive tier and of most random cases
@@ -405,7 +458,8 @@ fn gen_kerning(rng: &mut Rng, pool: &[&str], groups: &Groups, max_first: usize) 
 }
 
 fn gen_case(rng: &mut Rng, wide: bool) -> Case {
-    let pool: &[&str] = if wide { GROUP_POOL } else { SMALL_POOL };
+    // a sixth of the wide cases draws its names from the self-similar pool
+    let pool: &[&str] = if wide { if rng.chance(1, 6) { SELF_SIMILAR } else { GROUP_POOL } } else { SMALL_POOL };
     let fmt = match rng.below(10) {
         0..=3 => 1,
         4..=7 => 2,
@@ -556,11 +610,35 @@ pub fn gen(tier: &str, seed: u64, out: &mut dyn Write) {
         "public.kern1", "public.kern1.\u{c4}", "public.kern2.\u{c4}", "public.kern3.", "public.kern1.A.", "X",
         "public.kern2", "Public.kern1.", "public.kern1. ", "@MMK_L_A",
     ];
+    // every self-similar name on its own and next to a sibling: save, format-3 load, legacy loads in which it
+    // is referenced on both sides (all request shapes)
+    for (i, name) in SELF_SIMILAR.iter().enumerate() {
+        let mut g = Groups::new();
+        g.insert(name.to_string(), vec!["a".to_string()]);
+        if i % 2 == 1 {
+            g.insert(SELF_SIMILAR[(i + 7) % SELF_SIMILAR.len()].to_string(), vec!["b".to_string()]);
+        }
+        emit_save(out, &g, &dir);
+        for fmt in [3u32, 1, 2] {
+            let mut k = Kerning::new();
+            k.entry(name.to_string()).or_default().insert(name.to_string(), 5.0);
+            k.entry("a".to_string()).or_default().insert(name.to_string(), -5.0);
+            let c = Case {
+                fmt,
+                groups: Some(g.clone()),
+                kerning: if fmt == 2 && i % 3 == 0 { None } else { Some(k) },
+                glyphs: ["a".to_string()].into_iter().collect(),
+                extra: BTreeSet::new(),
+            };
+            let obs = observe_load_shapes(&c, &dir, true, true);
+            writeln!(out, "{} => {}", c.tokens(), obs).unwrap();
+        }
+    }
     for _ in 0..vn {
         let mut g = Groups::new();
         let ng = 1 + rng.below(4);
         for _ in 0..ng {
-            let name = rng.pick(VPOOL).to_string();
+            let name = if rng.chance(1, 5) { rng.pick(SELF_SIMILAR).to_string() } else { rng.pick(VPOOL).to_string() };
             let nm = rng.below(4);
             let ms: Vec<String> = (0..nm).map(|_| rng.pick(&["a", "b", "c", "d", "e", "f", "g"]).to_string()).collect();
             g.insert(name, ms);
